@@ -1256,3 +1256,42 @@ func eraseOps(s string) string {
 	}
 	return s
 }
+
+// M2W: the frame clause of the mode contract alone, for the ownership property: per generated
+// StdEng method and non-aliased scenario, the interpreted case writes nothing but its
+// destination, buffers created in the call and the scalar's scratch header, and safe mode
+// returns a tensor created in the call. Wrong values are the business of M2 under the
+// arithmetic properties; a write into an operand is reported here too.
+func M2W(rc *RC, floorCases int) {
+	rc.S.Declare("M2W", "write frame of the generated engine methods: per method and scenario (mode x scalar side x result kind x iterator/raw path) only the designated destination, tensors created in the call and the scalar's scratch header are written; safe mode returns a tensor created in the call", floorCases)
+	for _, fi := range rc.P.SortedFuncs() {
+		m, ok := classifyStdEng(fi)
+		if !ok {
+			continue
+		}
+		for _, sc := range mScenarios(m, rc.Thorough()) {
+			if sc.Alias != "" {
+				continue
+			}
+			st := mRunAliased(m, sc)
+			key := fi.Key + "[" + sc.String() + "]"
+			pos := rc.P.Pos(fi.Decl.Pos())
+			if len(st.undec) > 0 {
+				rc.S.Undec("M2W", key, pos, "interpreter met a construct outside the generated template: "+strings.Join(st.undec, "; "))
+				continue
+			}
+			var bad []string
+			for _, b := range mContract(m, sc, st) {
+				if strings.HasPrefix(b, "writes ") || strings.HasPrefix(b, "safe mode returns") {
+					bad = append(bad, b)
+				}
+			}
+			tr := strings.Join(st.trace, " ; ")
+			if len(bad) > 0 {
+				rc.S.Viol("M2W", key, pos, strings.Join(bad, "; ")+"   [path: "+tr+"]").Sig = eraseOps(strings.Join(bad, "; "))
+			} else {
+				rc.S.Ok("M2W", key, pos, "writes only "+symName(st.ret)+" and call-local buffers   [path: "+tr+"]")
+			}
+		}
+	}
+}
